@@ -123,10 +123,16 @@ impl SearchRange {
         let search_range = (2.0_f64.powi(entry_selector as i32) * item_size as f64) as usize;
         // The result doesn't really make sense with 0 tables but ... let's at least not fail
         let range_shift = (n_items * item_size).saturating_sub(search_range);
+        // With 4096 or more 16-byte items (more tables than any real font
+        // has) the search range no longer fits the 16-bit field. Readers
+        // ignore these values, so saturate rather than fail.
+        fn saturate(value: usize) -> u16 {
+            u16::try_from(value).unwrap_or(u16::MAX)
+        }
         SearchRange {
-            search_range: search_range.try_into().unwrap(),
-            entry_selector: entry_selector.try_into().unwrap(),
-            range_shift: range_shift.try_into().unwrap(),
+            search_range: saturate(search_range),
+            entry_selector: saturate(entry_selector),
+            range_shift: saturate(range_shift),
         }
     }
 }
